@@ -447,7 +447,7 @@ func c16Order(tier string, seed int64, idx int, scratch string) rt.CaseResult {
 	var c rt.CaseResult
 	rt.SetWatchdogLimit(30 * time.Second)
 	rng := seqrun.Rng(seed, "C16o", idx)
-	patterns := []string{"send-before-run", "stop-stop-concurrent", "run-stop-run", "stop-before-run", "send-during-stop", "run-run-concurrent", "random", "stop-racing-runs", "restart-with-deferred", "first-deferral-racing-stop", "send-from-job-during-stop", "send-while-stop-waits"}
+	patterns := []string{"send-before-run", "stop-stop-concurrent", "run-stop-run", "stop-before-run", "send-during-stop", "run-run-concurrent", "random", "stop-racing-runs", "restart-with-deferred", "first-deferral-racing-stop", "send-from-job-during-stop", "send-while-stop-waits", "race-for-last-slot", "run-context-cancelled-before-stop"}
 	pat := patterns[idx%len(patterns)]
 	e := &c16Env{pool: verif.NewPool(verif.PoolOptions{NumWorkers: 1 + rng.Intn(2), SendDuration: time.Microsecond}), t0: time.Now()}
 	fmt.Fprintf(stderrW, "C16 pattern %s\n", pat)
@@ -645,6 +645,119 @@ func c16Order(tier string, seed int64, idx int, scratch string) rt.CaseResult {
 			}
 			close(j.hold)
 			<-stopped
+		}
+	case "race-for-last-slot":
+		// every worker is busy and the channel has exactly one free slot; several goroutines Send at
+		// the same moment: all of them must return (direct or deferred) while the workers are still
+		// busy - decided logically, the workers are only released once every Send has returned
+		workers := 1 + rng.Intn(2)
+		e.workers = workers
+		e.pool = verif.NewPool(verif.PoolOptions{NumWorkers: workers, SendDuration: []time.Duration{time.Microsecond, 200 * time.Microsecond}[rng.Intn(2)]})
+		e.pool.Run(bg)
+		for round := 0; round < 150; round++ {
+			if round%16 == 0 {
+				rt.Beat()
+			}
+			var blockers []*c16Job
+			for i := 0; i < workers; i++ {
+				b := e.newJob(true)
+				b.callerCtx = bg
+				blockers = append(blockers, b)
+				e.send(b)
+			}
+			for _, b := range blockers {
+				for b.started.Load() == 0 {
+					runtime.Gosched()
+				}
+			}
+			for e.pool.VerifState().ChanLen < 2*workers-1 { // the channel holds two jobs per worker: leave one slot
+				j := e.newJob(false)
+				j.callerCtx = bg
+				e.send(j)
+			}
+			var goFlag atomic.Bool
+			var swg sync.WaitGroup
+			for g := 0; g < 6; g++ {
+				swg.Add(1)
+				j := e.newJob(false)
+				j.callerCtx = bg
+				go func() {
+					defer swg.Done()
+					for !goFlag.Load() {
+					}
+					e.send(j)
+				}()
+			}
+			done := make(chan struct{})
+			go func() { swg.Wait(); close(done) }()
+			goFlag.Store(true)
+			late := false
+			select {
+			case <-done:
+			case <-time.After(20 * time.Second):
+				late = true
+			}
+			for _, b := range blockers {
+				close(b.gate)
+			}
+			<-done
+			rp := map[string]any{"pattern": pat, "seed": seed, "case": idx, "round": round, "workers": workers}
+			if late {
+				c.Violate("send-waited-for-free-worker last-slot", "six goroutines sent at the same moment with one free slot in the channel and every worker busy: at least one Send returned only after the workers had been released", rp)
+				break
+			}
+			if !e.quiesce(&c, rp) {
+				break
+			}
+		}
+		if len(c.Violations) == 0 && len(c.Inconclusive) == 0 {
+			e.checkOnce(&c, map[string]any{"pattern": pat, "seed": seed, "case": idx}, true)
+		}
+	case "run-context-cancelled-before-stop":
+		// the owner cancels the context it gave to Run and calls Stop afterwards: Stop must still
+		// wait for the job in flight, and nothing may start after it has returned
+		for round := 0; round < 12; round++ {
+			rt.Beat()
+			ctx, cancel := context.WithCancel(bg)
+			e.pool.Run(ctx)
+			j := e.newJob(true)
+			j.callerCtx = bg
+			j.hold = make(chan struct{})
+			cancelled := make(chan struct{})
+			j.onDone = func() { close(cancelled) }
+			e.send(j)
+			for j.started.Load() == 0 {
+				runtime.Gosched()
+			}
+			send()
+			send()
+			cancel()
+			<-cancelled
+			time.Sleep(time.Duration(round%3) * time.Millisecond)
+			stopped := make(chan struct{})
+			go func() { e.pool.Stop(); close(stopped) }()
+			select {
+			case <-stopped:
+				c.Violate("stop-returned-with-running-jobs run-context-cancelled", "Stop returned while a job was still running (the context handed to Run had been cancelled before)", map[string]any{"pattern": pat, "seed": seed, "case": idx})
+				close(j.hold)
+				return c
+			case <-time.After(30 * time.Millisecond):
+			}
+			close(j.hold)
+			<-stopped
+			stopRet := e.now()
+			time.Sleep(2 * time.Millisecond)
+			e.mu.Lock()
+			for _, x := range e.jobs {
+				if st := x.started.Load(); st > stopRet {
+					c.Violate("job-started-after-stop run-context-cancelled", fmt.Sprintf("job %d started %d ns after Stop had returned", x.id, st-stopRet), map[string]any{"pattern": pat, "seed": seed, "case": idx})
+					break
+				}
+			}
+			e.mu.Unlock()
+			if len(c.Violations) > 0 {
+				return c
+			}
 		}
 	case "run-run-concurrent":
 		par(func() { e.pool.Run(bg) }, func() { e.pool.Run(bg) })
